@@ -15,6 +15,7 @@ Definition entries : list (string * (sexp -> option sexp)) := [
   ("C19.string", JsonTag.run_string);
   ("C19.jsonrule", JsonTag.run_jsonrule);
   ("C07.run", Tracker.run_trace);
+  ("C07.ops", Tracker.run_trace_ops);
   ("C07.run#pcheck", Tracker.run_pcheck_trace);
   ("C14.names", Namer.run_names);
   ("C14.plural", Namer.run_plural);
